@@ -256,8 +256,13 @@ func runC15(c *fw.Ctx) {
 					render := func(paren bool) string {
 						var b strings.Builder
 						b.WriteString("  Description\n")
+						// the parentheses' own lines are indented like the text: with tabs where the text is
+						parenInd := "  "
+						if strings.HasPrefix(base, "\t") {
+							parenInd = "\t"
+						}
 						if paren {
-							b.WriteString("  (\n")
+							b.WriteString(parenInd + "(\n")
 						}
 						for _, l := range lines {
 							if l == "" {
@@ -267,7 +272,7 @@ func runC15(c *fw.Ctx) {
 							}
 						}
 						if paren {
-							b.WriteString("  )\n")
+							b.WriteString(parenInd + ")\n")
 						}
 						text := h.doc(b.String())
 						if nl != "\n" {
